@@ -1,5 +1,6 @@
 import IwModel.Model.Format
 import IwModel.Lemmas.Format
+import IwModel.Lemmas.KvBlk
 /-! # C06 — on-disk structure well-formed, every block accounted for
 
 The audit of Model/Format.lean is the executable statement of the property; it runs on real file
@@ -277,5 +278,233 @@ def exDb : DbImg :=
     metaBlkn := 0, blk := 2, nodes := [exNode] }
 
 example : checkDb exDb = [] := by decide
+
+/-! ## The writer of one data block (`struct kvblk`): the slot clause by induction over the operations
+
+`Model/KvBlk.lean` mirrors `_kvblk_create/_addkv/_rmkv/_updatev/_compact_mm/_sync_mm` branch by branch and is tied to real
+files byte-exactly (checks/c06.py, block stream: the model block must equal the block in the file after EVERY operation).
+`KvBlk.BlkInv` is the invariant; the theorems say every operation preserves it for all inputs, hence it holds after any
+history, and a block satisfying it passes the audit's `checkSlots`. -/
+
+/-- **What the invariant says**, spelled out: 32 slots; a used slot has `0 < len ≤ off ≤ 2^szpow − (header + idxsz)`; the byte
+intervals `[2^szpow − off, 2^szpow − off + len)` of two used slots are disjoint; `maxoff` is the largest offset; `zidx` is the first
+free slot (`none` if there is none); a used slot is exactly as long as its record `vnumsize(klen) + klen + vlen`; free slots are
+`(0, 0)`; the cached index size is at least the real one. -/
+theorem blkinv_spec (b : KvBlk.KvBlk) (h : KvBlk.BlkInv b) :
+    b.slots.length = Gen.KVBLK_IDXNUM ∧
+    (∀ i, (KvBlk.sl b.slots i).len ≠ 0 → 0 < (KvBlk.sl b.slots i).len ∧ (KvBlk.sl b.slots i).len ≤ (KvBlk.sl b.slots i).off ∧
+      (KvBlk.sl b.slots i).off ≤ 2 ^ b.szpow - (Gen.KVBLK_HDRSZ + b.idxsz)) ∧
+    (∀ i j, i ≠ j → (KvBlk.sl b.slots i).len ≠ 0 → (KvBlk.sl b.slots j).len ≠ 0 →
+      2 ^ b.szpow - (KvBlk.sl b.slots i).off + (KvBlk.sl b.slots i).len ≤ 2 ^ b.szpow - (KvBlk.sl b.slots j).off ∨
+      2 ^ b.szpow - (KvBlk.sl b.slots j).off + (KvBlk.sl b.slots j).len ≤ 2 ^ b.szpow - (KvBlk.sl b.slots i).off) ∧
+    (b.maxoff = KvBlk.maxOff b.slots ∧ ∀ i, (KvBlk.sl b.slots i).off ≤ b.maxoff) ∧
+    b.zidx = KvBlk.firstFree b.slots ∧
+    (∀ i, (KvBlk.sl b.slots i).len ≠ 0 →
+      KvBlk.vn (KvBlk.sl b.slots i).key.length + (KvBlk.sl b.slots i).key.length + (KvBlk.sl b.slots i).val.length = (KvBlk.sl b.slots i).len) ∧
+    (∀ i, (KvBlk.sl b.slots i).len = 0 → (KvBlk.sl b.slots i).off = 0) ∧
+    KvBlk.idxBytes b.slots ≤ b.idxsz := by
+  have hub : ∀ i, (KvBlk.sl b.slots i).off ≤ b.maxoff := fun i => by rw [h.maxoff]; exact KvBlk.maxOff_ge b.slots i
+  have hr := h.room'
+  refine ⟨h.n32, ?_, ?_, ⟨h.maxoff, hub⟩, h.zidx, ?_, h.tab.freeoff, h.idxge⟩
+  · intro i hi
+    have := h.tab.lenoff i; have := hub i
+    omega
+  · intro i j hij hi hj
+    have := h.tab.lenoff i; have := h.tab.lenoff j; have := hub i; have := hub j
+    rcases h.tab.disj i j hij hi hj with d | d
+    · right; omega
+    · left; omega
+  · intro i hi; exact (h.tab.fit i hi).symm
+
+/-- `_kvblk_create`: a fresh block of any size the callers ask for (`_sblk_create_v1` raises `kvbpow` to `KVBLK_INISZPOW`) satisfies
+the invariant -/
+theorem blkinv_create (p : Nat) (hp : Gen.KVBLK_INISZPOW ≤ p) : KvBlk.BlkInv (KvBlk.create p) := by
+  apply KvBlk.blkInv_create p _ (by decide)
+  have : 2 ^ Gen.KVBLK_INISZPOW ≤ 2 ^ p := Nat.pow_le_pow_right (by decide) hp
+  have e : Gen.KVBLK_HDRSZ + 2 * Gen.KVBLK_IDXNUM ≤ 2 ^ Gen.KVBLK_INISZPOW := by decide
+  omega
+
+/-- `_kvblk_sync_mm` turns the geometry into the full invariant (the cached index size is exact again) -/
+theorem blkinv_sync (b : KvBlk.KvBlk) (h : KvBlk.Geo b) : KvBlk.BlkInv (KvBlk.sync b) := KvBlk.blkInv_sync h
+
+/-- `_kvblk_addkv` (any key, any value, whichever of the branches fits / compact / compact+grow / grow is taken): the geometry holds
+right after the call — with the index size still cached from before — and the invariant after the caller's sync -/
+theorem blkinv_addkv (b : KvBlk.KvBlk) (h : KvBlk.BlkInv b) (key val : Bytes) (b' : KvBlk.KvBlk) (idx : Nat)
+    (e : KvBlk.addkv b key val = .ok b' idx) : KvBlk.Geo b' ∧ KvBlk.BlkInv (KvBlk.sync b') :=
+  ⟨(KvBlk.geo_addkv h key val b' idx e).1, KvBlk.blkInv_sync (KvBlk.geo_addkv h key val b' idx e).1⟩
+
+/-- `_kvblk_rmkv` (any slot number below `KVBLK_IDXNUM`, with or without `RMKV_NO_RESIZE`, shrink taken or not) -/
+theorem blkinv_rmkv (b : KvBlk.KvBlk) (h : KvBlk.BlkInv b) (idx : Nat) (hidx : idx < Gen.KVBLK_IDXNUM) (noResize : Bool) :
+    KvBlk.BlkInv (KvBlk.rmkv b idx noResize) := KvBlk.blkInv_rmkv h idx (by rw [h.n32]; exact hidx) noResize
+
+/-- `_kvblk_updatev` (any slot, any new value; in place, grown into the gap below the previous record, or removed and re-added —
+including the path where the re-add fails) -/
+theorem blkinv_updatev (b : KvBlk.KvBlk) (h : KvBlk.BlkInv b) (idx : Nat) (hidx : idx < Gen.KVBLK_IDXNUM) (val : Bytes) :
+    KvBlk.Geo (KvBlk.updatev b idx val).blk ∧ KvBlk.BlkInv (KvBlk.sync (KvBlk.updatev b idx val).blk) :=
+  ⟨KvBlk.geo_updatev h idx (by rw [h.n32]; exact hidx) val, KvBlk.blkInv_sync (KvBlk.geo_updatev h idx (by rw [h.n32]; exact hidx) val)⟩
+
+/-- `_kvblk_compact_mm`: the invariant is kept, records stay in their slots with their contents, and afterwards the data area is
+exactly the sum of the record lengths -/
+theorem blkinv_compact (b : KvBlk.KvBlk) (h : KvBlk.BlkInv b) :
+    KvBlk.BlkInv (KvBlk.compact b) ∧ KvBlk.compactedOffset (KvBlk.compact b) = (KvBlk.compact b).maxoff ∧
+    KvBlk.recs (KvBlk.compact b) = KvBlk.recs b := by
+  refine ⟨KvBlk.blkInv_compact h, KvBlk.compact_compacted h.toGeo, ?_⟩
+  have hs := KvBlk.compact_slots_same b h.tab
+  exact KvBlk.filterMap_congr_sl hs.1 (fun i => KvBlk.recOf_eq ⟨(hs.2.2 i).1, (hs.2.2 i).2.1, (hs.2.2 i).2.2.1⟩)
+
+/-- **Any history.** Starting from a fresh block, after any sequence of add / remove / update / compact operations with any arguments
+(each followed by the sync its caller performs) the invariant holds. -/
+theorem blkinv_history (p : Nat) (hp : Gen.KVBLK_INISZPOW ≤ p) (ops : List KvBlk.Op) :
+    KvBlk.BlkInv (KvBlk.run (KvBlk.create p) ops) := KvBlk.blkInv_run (blkinv_create p hp) ops
+
+/-- the same from any state satisfying the invariant (e.g. a block loaded from a well-formed file) -/
+theorem blkinv_history_from (b : KvBlk.KvBlk) (h : KvBlk.BlkInv b) (ops : List KvBlk.Op) : KvBlk.BlkInv (KvBlk.run b ops) :=
+  KvBlk.blkInv_run h ops
+
+/-- `_kvblk_addkv` adds exactly the new record: the records of the block, as a multiset, are the old ones plus `(key, val)`;
+the returned slot was free and now holds the record -/
+theorem addkv_content (b : KvBlk.KvBlk) (h : KvBlk.BlkInv b) (key val : Bytes) (b' : KvBlk.KvBlk) (idx : Nat)
+    (e : KvBlk.addkv b key val = .ok b' idx) :
+    (KvBlk.recs b').Perm ((key, val) :: KvBlk.recs b) ∧ (KvBlk.sl b.slots idx).len = 0 ∧
+    (KvBlk.sl b'.slots idx).key = key ∧ (KvBlk.sl b'.slots idx).val = val := by
+  obtain ⟨_, _, h2, _, h4, _⟩ := KvBlk.geo_addkv h key val b' idx e
+  exact ⟨KvBlk.addkv_recs h key val b' idx e, h2, by rw [h4], by rw [h4]⟩
+
+/-- `_kvblk_rmkv` removes exactly the record of the slot -/
+theorem rmkv_content (b : KvBlk.KvBlk) (h : KvBlk.BlkInv b) (idx : Nat) (hidx : idx < Gen.KVBLK_IDXNUM) (noResize : Bool)
+    (hused : (KvBlk.sl b.slots idx).len ≠ 0) :
+    (KvBlk.recs b).Perm (((KvBlk.sl b.slots idx).key, (KvBlk.sl b.slots idx).val) :: KvBlk.recs (KvBlk.rmkv b idx noResize)) :=
+  KvBlk.rmkv_recs_perm h idx (by rw [h.n32]; exact hidx) noResize hused
+
+/-- `_kvblk_updatev` replaces exactly the value of the slot's record, like an association list does: one record `(key, old)` leaves,
+`(key, new)` enters, the rest is untouched (whatever slot the record ends up in) -/
+theorem updatev_content (b : KvBlk.KvBlk) (h : KvBlk.BlkInv b) (idx : Nat) (hidx : idx < Gen.KVBLK_IDXNUM) (val : Bytes)
+    (hused : (KvBlk.sl b.slots idx).len ≠ 0) (b' : KvBlk.KvBlk) (i' : Nat) (e : KvBlk.updatev b idx val = .ok b' i') :
+    ∃ rest, (KvBlk.recs b).Perm (((KvBlk.sl b.slots idx).key, (KvBlk.sl b.slots idx).val) :: rest) ∧
+      (KvBlk.recs b').Perm (((KvBlk.sl b.slots idx).key, val) :: rest) :=
+  KvBlk.updatev_recs h idx (by rw [h.n32]; exact hidx) val hused b' i' e
+
+/-- the only failure of `_kvblk_updatev` in the model is `IWKV_ERROR_MAXKVSZ` from the re-add (record larger than 0xfffffff bytes),
+and on that path the old record has already been removed: the error does NOT leave the block unchanged (see design notes) -/
+theorem updatev_failure_loses_record (b : KvBlk.KvBlk) (h : KvBlk.BlkInv b) (idx : Nat) (hidx : idx < Gen.KVBLK_IDXNUM) (val : Bytes)
+    (hused : (KvBlk.sl b.slots idx).len ≠ 0) (b' : KvBlk.KvBlk) (err : KvBlk.AddRes) (e : KvBlk.updatev b idx val = .failed b' err) :
+    err = .maxkvsz ∧ KvBlk.recSize (KvBlk.sl b.slots idx).key val > Gen.IWKV_MAX_KVSZ ∧
+    (KvBlk.recs b).Perm (((KvBlk.sl b.slots idx).key, (KvBlk.sl b.slots idx).val) :: KvBlk.recs b') :=
+  KvBlk.updatev_failed h idx (by rw [h.n32]; exact hidx) val hused b' err e
+
+theorem zipIdx_pairwise {α : Type} (l : List α) (k : Nat) : (l.zipIdx k).Pairwise (fun x y => x.2 < y.2) := by
+  induction l generalizing k with
+  | nil => exact List.Pairwise.nil
+  | cons a t ih =>
+    rw [List.zipIdx_cons, List.pairwise_cons]
+    refine ⟨?_, ih (k + 1)⟩
+    intro x hx
+    have := (List.mem_zipIdx hx).1
+    show k < x.2; omega
+
+/-- a used slot of the node, in terms of the block model -/
+theorem usedSlots_mem (b : KvBlk.KvBlk) (s : Sblk) (h3 : s.slots = KvBlk.pairs b) (x : (Nat × Nat) × Nat) (hx : x ∈ usedSlots s) :
+    x.1 = ((KvBlk.sl b.slots x.2).off, (KvBlk.sl b.slots x.2).len) ∧ (KvBlk.sl b.slots x.2).len ≠ 0 := by
+  simp only [usedSlots, List.mem_filter, h3, KvBlk.pairs] at hx
+  obtain ⟨h1, h2⟩ := hx
+  obtain ⟨_, hlt, he⟩ := List.mem_zipIdx h1
+  simp only [Nat.sub_zero, List.length_map, List.getElem_map] at hlt he
+  have hlt' : x.2 < b.slots.length := by omega
+  have e : KvBlk.sl b.slots x.2 = b.slots[x.2] := by
+    simp [KvBlk.sl, List.getD_eq_getElem?_getD, List.getElem?_eq_getElem hlt']
+  rw [e]
+  refine ⟨he, ?_⟩
+  rw [he] at h2
+  simpa using h2
+
+/-- **From the writer's invariant to the audit.** A node whose data block is a model block satisfying `BlkInv` (same size power, index
+size and slot table), whose `pi` names no slot twice and whose `pnum` counts the used slots, passes `checkSlots` — so everything
+`checkSlots_sound` states (slots inside the data area, pairwise disjoint byte intervals) holds for it. -/
+theorem blkinv_checkSlots (b : KvBlk.KvBlk) (h : KvBlk.BlkInv b) (s : Sblk)
+    (h1 : s.szpow = b.szpow) (h2 : s.idxsz = b.idxsz) (h3 : s.slots = KvBlk.pairs b) (h4 : s.pi.Nodup)
+    (h5 : (usedSlots s).length = s.pnum) : checkSlots s = none := by
+  have hub : ∀ i, (KvBlk.sl b.slots i).off ≤ b.maxoff := fun i => by rw [h.maxoff]; exact KvBlk.maxOff_ge b.slots i
+  have hr := h.room'
+  have c1 : (usedSlots s).find? (slotOutside s) = none := by
+    rw [List.find?_eq_none]
+    intro x hx
+    obtain ⟨e, hu⟩ := usedSlots_mem b s h3 x hx
+    have := h.tab.lenoff x.2; have := hub x.2
+    simp only [slotOutside, h1, h2, e, decide_eq_true_eq]
+    omega
+  have hpw : (usedSlots s).Pairwise (fun x y => x.2 < y.2) := (zipIdx_pairwise s.slots 0).filter _
+  have c2 : (slotIvs s).zipIdx.find? (fun x => (slotIvs s).zipIdx.any fun y => x.2 < y.2 ∧ overlap x.1 y.1) = none := by
+    rw [List.find?_eq_none]
+    intro x hx
+    simp only [List.any_eq_true, not_exists, not_and]
+    intro y hy
+    obtain ⟨xi, i⟩ := x
+    obtain ⟨yj, j⟩ := y
+    have hxi := List.mem_zipIdx hx
+    have hyj := List.mem_zipIdx hy
+    have hlen : (slotIvs s).length = (usedSlots s).length := by simp [slotIvs]
+    simp only [Nat.zero_add, Nat.sub_zero, hlen] at hxi hyj
+    simp only [overlap, Bool.decide_and, Bool.and_eq_true, decide_eq_true_eq, not_and]
+    intro hij
+    have hlt := (List.pairwise_iff_getElem.1 hpw) i j hxi.2.1 hyj.2.1 hij
+    obtain ⟨ei, ui⟩ := usedSlots_mem b s h3 _ (List.getElem_mem hxi.2.1)
+    obtain ⟨ej, uj⟩ := usedSlots_mem b s h3 _ (List.getElem_mem hyj.2.1)
+    have exi : xi = (2 ^ b.szpow - ((usedSlots s)[i]).1.1, 2 ^ b.szpow - ((usedSlots s)[i]).1.1 + ((usedSlots s)[i]).1.2) := by
+      have := hxi.2.2; simp only [slotIvs, List.getElem_map, h1] at this; exact this
+    have eyj : yj = (2 ^ b.szpow - ((usedSlots s)[j]).1.1, 2 ^ b.szpow - ((usedSlots s)[j]).1.1 + ((usedSlots s)[j]).1.2) := by
+      have := hyj.2.2; simp only [slotIvs, List.getElem_map, h1] at this; exact this
+    have a1 : xi.1 = 2 ^ b.szpow - ((usedSlots s)[i]).1.1 := congrArg Prod.fst exi
+    have a2 : xi.2 = 2 ^ b.szpow - ((usedSlots s)[i]).1.1 + ((usedSlots s)[i]).1.2 := congrArg Prod.snd exi
+    have b1 : yj.1 = 2 ^ b.szpow - ((usedSlots s)[j]).1.1 := congrArg Prod.fst eyj
+    have b2 : yj.2 = 2 ^ b.szpow - ((usedSlots s)[j]).1.1 + ((usedSlots s)[j]).1.2 := congrArg Prod.snd eyj
+    have o1 : ((usedSlots s)[i]).1.1 = (KvBlk.sl b.slots ((usedSlots s)[i]).2).off := congrArg Prod.fst ei
+    have o2 : ((usedSlots s)[i]).1.2 = (KvBlk.sl b.slots ((usedSlots s)[i]).2).len := congrArg Prod.snd ei
+    have o3 : ((usedSlots s)[j]).1.1 = (KvBlk.sl b.slots ((usedSlots s)[j]).2).off := congrArg Prod.fst ej
+    have o4 : ((usedSlots s)[j]).1.2 = (KvBlk.sl b.slots ((usedSlots s)[j]).2).len := congrArg Prod.snd ej
+    have d := h.tab.disj _ _ (Nat.ne_of_lt hlt) ui uj
+    have := h.tab.lenoff ((usedSlots s)[i]).2; have := h.tab.lenoff ((usedSlots s)[j]).2
+    have := hub ((usedSlots s)[i]).2; have := hub ((usedSlots s)[j]).2
+    simp only [KvBlk.Disj] at d
+    omega
+  simp only [checkSlots, c1, c2, hasDup_of_nodup _ h4, h5]
+  simp
+
+/-- the node the check builds from a model block: `pi` = the used slot numbers, `pnum` = their count (the other fields of the node record
+play no role in the slot audit) -/
+def nodeOf (b : KvBlk.KvBlk) (blk kblk : Nat) : Sblk :=
+  let used := ((KvBlk.pairs b).zipIdx.filter fun x => x.1.2 ≠ 0).map (·.2)
+  { flags := 0, lvl := 0, lkl := 0, pnum := used.length, p0 := 0, kblk, piAll := used ++ List.replicate (Gen.KVBLK_IDXNUM - used.length) 0,
+    n := [0], bpos := 1, lk := [], szpow := b.szpow, idxsz := b.idxsz, slots := KvBlk.pairs b, blk, recs := KvBlk.recs b }
+
+/-- after any history the node built from the model block passes the slot audit -/
+theorem blkinv_checkSlots_node (b : KvBlk.KvBlk) (h : KvBlk.BlkInv b) (blk kblk : Nat) : checkSlots (nodeOf b blk kblk) = none := by
+  apply blkinv_checkSlots b h _ rfl rfl rfl
+  · show ((((KvBlk.pairs b).zipIdx.filter fun x => x.1.2 ≠ 0).map (·.2)) ++ _).take
+      (((KvBlk.pairs b).zipIdx.filter fun x => x.1.2 ≠ 0).map (·.2)).length |>.Nodup
+    rw [List.take_left']
+    · have hp := (zipIdx_pairwise (KvBlk.pairs b) 0).filter (fun x => decide (x.1.2 ≠ 0))
+      have : (((KvBlk.pairs b).zipIdx.filter fun x => decide (x.1.2 ≠ 0)).map fun x : (Nat × Nat) × Nat => x.2).Pairwise (fun a c => a < c) :=
+        List.Pairwise.map (fun x : (Nat × Nat) × Nat => x.2) (fun _ _ hab => hab) hp
+      exact this.imp (fun hab => Nat.ne_of_lt hab)
+    · rfl
+  · show (usedSlots (nodeOf b blk kblk)).length = (((KvBlk.pairs b).zipIdx.filter fun x => x.1.2 ≠ 0).map (·.2)).length
+    simp [usedSlots, nodeOf]
+
+theorem history_checkSlots (p : Nat) (hp : Gen.KVBLK_INISZPOW ≤ p) (ops : List KvBlk.Op) (blk kblk : Nat) :
+    checkSlots (nodeOf (KvBlk.run (KvBlk.create p) ops) blk kblk) = none :=
+  blkinv_checkSlots_node _ (KvBlk.blkInv_run (KvBlk.blkInv_create p (by
+    have : 2 ^ Gen.KVBLK_INISZPOW ≤ 2 ^ p := Nat.pow_le_pow_right (by decide) hp
+    have e : Gen.KVBLK_HDRSZ + 2 * Gen.KVBLK_IDXNUM ≤ 2 ^ Gen.KVBLK_INISZPOW := by decide
+    omega) (by decide)) ops) blk kblk
+
+/-- non-vacuity: a fresh 512-byte block satisfies the invariant -/
+example : KvBlk.BlkInv (KvBlk.create 9) := blkinv_create 9 (by decide)
+
+/-- a concrete history on the model: three records, the first removed, the second grown into the gap this left (slot 1 keeps offset 7,
+length 4 → 7) -/
+example : (KvBlk.pairs (KvBlk.run (KvBlk.create 9)
+      [.add [1] [2], .add [3] [4, 5], .add [9] [9, 9, 9], .rm 0, .upd 1 [7, 7, 7, 8, 8]])).take 4 = [(0, 0), (7, 7), (12, 5), (0, 0)] ∧
+    KvBlk.recs (KvBlk.run (KvBlk.create 9) [.add [1] [2], .add [3] [4, 5], .add [9] [9, 9, 9], .rm 0, .upd 1 [7, 7, 7, 8, 8]]) =
+      [([3], [7, 7, 7, 8, 8]), ([9], [9, 9, 9])] := by decide
 
 end IwModel.C06
